@@ -405,7 +405,9 @@ func buildCborGroup() ([]*target, error) {
 			return fmt.Sprint(err)
 		}))
 	tgs = append(tgs, cborTarget("cbor-common.Namespace", "1 decoded", seedsOf[common.Namespace]("runtime-id", rtID, "keymanager-id", kmID), 1,
-		func(v *common.Namespace, o *outcome) string { return fmt.Sprint(v.IsTest(), v.IsKeyManager(), v.String()) }))
+		func(v *common.Namespace, o *outcome) string {
+			return fmt.Sprint(v.IsTest(), v.IsKeyManager(), v.String())
+		}))
 	tgs = append(tgs, cborTarget[quantity.Quantity]("cbor-quantity.Quantity", "1 decoded", seedsOf[quantity.Quantity]("small", q(5), "zero", q(0), "big", q(1<<63)), 1, nil))
 	return tgs, nil
 }
